@@ -860,6 +860,71 @@ hx_request(struct hx_reply_s *rp, uid_t u, const char *req, size_t len)
 	}
 }
 
+/* a connection in two halves: the peer connects (the daemon hands it a connection slot and notes its credentials,
+ * as sock_conn_cb() does after accept()), and only later sends its request and reads the reply; any number of peers
+ * may be connected in between */
+struct hx_conn_s {
+	int sv[2];
+	struct echs_conn_s *c;
+	uid_t u;
+	int refused;
+};
+
+static void
+hx_conn_open(struct hx_conn_s *h, uid_t u)
+{
+	memset(h, 0, sizeof(*h));
+	h->u = u;
+	if (socketpair(AF_UNIX, SOCK_STREAM, 0, h->sv) < 0) {
+		perror("socketpair");
+		_exit(4);
+	}
+	if ((h->c = make_conn()) == NULL) {
+		/* too many concurrent connections: the daemon closes the accepted socket */
+		syscall(SYS_close, (long)h->sv[1], 0L, 0L, 0L, 0L, 0L);
+		syscall(SYS_close, (long)h->sv[0], 0L, 0L, 0L, 0L, 0L);
+		h->refused = 1;
+		return;
+	}
+	{
+		ncred_t cr = compl_uid(u);
+		h->c->cred = cr.u != NOT_A_UID ? cr : (ncred_t){u, u};
+	}
+	ev_io_init(&h->c->r, sock_data_cb, h->sv[1], EV_READ);
+}
+
+static void
+hx_conn_finish(struct hx_conn_s *h, struct hx_reply_s *rp, const char *req, size_t len)
+{
+	memset(rp, 0, sizeof(*rp));
+	for (size_t o = 0; o < len;) {
+		ssize_t w = (ssize_t)syscall(SYS_write, (long)h->sv[0], (long)(req + o), (long)(len - o), 0L, 0L, 0L);
+		if (w <= 0) break;
+		o += (size_t)w;
+	}
+	shutdown(h->sv[0], SHUT_WR);
+	/* the loop calls the watcher that was started for this peer's socket */
+	for (int i = 0; i < 8 && h->c->r.fd == h->sv[1] && h->c->buf != NULL; i++) {
+		sock_data_cb(hx_ctx->loop, &h->c->r, EV_READ);
+	}
+	{
+		/* never wait for a reply that nobody is going to write */
+		int fl = fcntl(h->sv[0], F_GETFL);
+		fcntl(h->sv[0], F_SETFL, fl | O_NONBLOCK);
+	}
+	for (;;) {
+		ssize_t r = (ssize_t)syscall(SYS_read, (long)h->sv[0], (long)(rp->buf + rp->len), (long)(sizeof(rp->buf) - 1 - rp->len), 0L, 0L, 0L);
+		if (r <= 0) break;
+		rp->len += (size_t)r;
+		if (rp->len >= sizeof(rp->buf) - 1) break;
+	}
+	rp->buf[rp->len] = '\0';
+	syscall(SYS_close, (long)h->sv[0], 0L, 0L, 0L, 0L, 0L);
+	for (const char *q = rp->buf; (q = strstr(q, "REQUEST-STATUS:")); q += 15) {
+		if (q[15] == '2') rp->nsucc++; else rp->nfail++;
+	}
+}
+
 /* ================= observation ================= */
 #define HX_MAXTASKS	300
 #define HX_MAXOCC	6
